@@ -156,8 +156,19 @@ def check(ctx):
         ts = [x.test for x in statements(h.node) if isinstance(x, ast.If) and "_crossing_instances" in ast.unparse(x.test) or
               (isinstance(x, ast.If) and "crossing_size" in ast.unparse(x.test) and var in ast.unparse(x.test))]
         ts = [t for t in ts if var in [n.id for n in ast.walk(t) if isinstance(n, ast.Name)]]
+        text = None
+        if not ts:
+            # the test may have been moved into a one-line helper method: self.<helper>(var)
+            for x in statements(h.node):
+                if isinstance(x, ast.If) and isinstance(x.test, ast.Call) and isinstance(x.test.func, ast.Attribute) and dotted(x.test.func.value) == "self" and \
+                        [ast.unparse(a) for a in x.test.args] == [var] and h.cls is not None and h.cls.lookup(x.test.func.attr) is not None:
+                    hm = h.cls.lookup(x.test.func.attr)
+                    rets = [r for r in statements(hm.node) if isinstance(r, ast.Return)]
+                    if len(rets) == 1 and len(hm.params) == 2:
+                        ts = [x.test]
+                        text = ast.unparse(rets[0].value).replace(hm.params[1], "N")
         ctx.require(len(ts) == 1, "%s: the per-combination / per-trial test was not found" % h.fq)
-        forms[ref] = ast.unparse(ts[0]).replace(var, "N")
+        forms[ref] = text if text is not None else ast.unparse(ts[0]).replace(var, "N")
         want_t = "N == len(self._crossing_instances) and self._crossing_is_unweighted"
         ctx.check(forms[ref] == want_t, R, h, "per-combination test: %s" % forms[ref], "one source-combination index per crossing combination exactly when the segment holds every distinct combination of an unweighted crossing once",
                   "%s decides between one index per combination and one per trial by `%s` (expected `%s`): the counted space and the drawn / decoded components no longer describe the same candidates" % (
